@@ -990,6 +990,22 @@ func (m *Machine) assign(fr *frame, s *ast.AssignStmt) error {
 			op = token.SUB
 		case token.MUL_ASSIGN:
 			op = token.MUL
+		case token.QUO_ASSIGN:
+			op = token.QUO
+		case token.REM_ASSIGN:
+			op = token.REM
+		case token.AND_ASSIGN:
+			op = token.AND
+		case token.OR_ASSIGN:
+			op = token.OR
+		case token.XOR_ASSIGN:
+			op = token.XOR
+		case token.AND_NOT_ASSIGN:
+			op = token.AND_NOT
+		case token.SHL_ASSIGN:
+			op = token.SHL
+		case token.SHR_ASSIGN:
+			op = token.SHR
 		default:
 			return undecided(s.Pos(), "unsupported op-assignment %s", s.Tok)
 		}
@@ -1963,6 +1979,22 @@ func (m *Machine) binop(pos token.Pos, op token.Token, l, r Value) (Value, error
 			return l <= rn, nil
 		case token.GEQ:
 			return l >= rn, nil
+		case token.AND:
+			return l & rn, nil
+		case token.OR:
+			return l | rn, nil
+		case token.XOR:
+			return l ^ rn, nil
+		case token.AND_NOT:
+			return l &^ rn, nil
+		case token.SHL:
+			if rn >= 0 && rn < 63 {
+				return l << uint(rn), nil
+			}
+		case token.SHR:
+			if rn >= 0 && rn < 64 {
+				return l >> uint(rn), nil
+			}
 		}
 	}
 	return nil, undecided(pos, "operator %s on %s and %s", op, Show(l), Show(r))
